@@ -198,6 +198,8 @@ def run(tier):
                 called_at = min([e["seq"] for e in evs if e["e"] == "Call" and e.get("kind") == "Disconnect"] or [10 ** 9])
                 where = "disconnect-after-connection-ended" if closed_at < called_at else "disconnect-on-live-connection"
             verd.witness(v["o"], where, "scenario %s: %s" % (sid, " ".join(dg)), {"scenario": byid[sid], "observer": v["o"], "trace": res["evs"]})
+    import dialer_family
+    dialer_runs = dialer_family.c16(binary, verd)
     rc = verd.finish()
     vlib.write_evidence(PID, tier, "model_checking", {
         "states": r.states + rka.states + totals["states"], "transitions": r.generated + rka.generated + totals["states"],
